@@ -228,6 +228,11 @@ func Generate(p *Profile, seed uint64) *Scenario {
 				sc.Steps = append(sc.Steps, Step{Op: "tick", Dt: 1 + net.Intn(6)})
 			}
 			continue
+		case faults && len(chain) > 1 && net.Pct(3):
+			// partition: one node hears nothing for a while, then heals and has to
+			// catch up across whatever happened meanwhile (blocks, reorganisations)
+			sc.Steps = append(sc.Steps, Step{Op: "part", Node: anyNodes[net.Intn(len(anyNodes))], Arg: 5 + net.Intn(40)})
+			continue
 		case len(forests) > 0 && g.Pct(pSnap):
 			node := forests[g.Intn(len(forests))]
 			switch {
